@@ -1,0 +1,110 @@
+//go:build verif
+
+package go9p
+
+import "sync/atomic"
+
+// Verification hooks (build tag `verif`). Nothing here is compiled into a normal
+// build. The harness in /verif installs VerifHook to log schedule points and to
+// park the calling goroutine; the accessors are read-only and take the same
+// locks as the code they observe.
+
+type verifHookFn func(point string, args ...interface{})
+
+var verifHook atomic.Value // of verifHookFn
+
+// VerifSetHook installs (or, with nil, removes) the schedule-point callback.
+func VerifSetHook(f func(point string, args ...interface{})) {
+	verifHook.Store(verifHookFn(f))
+}
+
+func verifPoint(point string, args ...interface{}) {
+	if f, ok := verifHook.Load().(verifHookFn); ok && f != nil {
+		f(point, args...)
+	}
+}
+
+// VerifTables returns copies of the per-type minimum body size tables and the
+// first and one-past-last message type codes.
+func VerifTables() (plain []uint32, dotu []uint32, first uint8, last uint8) {
+	return append([]uint32(nil), minFcsize[:]...), append([]uint32(nil), minFcusize[:]...), Tversion, Tlast
+}
+
+// VerifConn reports bookkeeping of a server connection.
+type VerifConnInfo struct {
+	Fids   map[uint32]int // fid number -> refcount
+	Tags   map[uint16]int // tag -> length of the request chain
+	Rchan  int            // pooled reply buffers
+	Msize  uint32
+	Dotu   bool
+	Npend  int
+	Reqout int
+}
+
+func VerifConn(conn *Conn) VerifConnInfo {
+	var vi VerifConnInfo
+	vi.Fids = make(map[uint32]int)
+	vi.Tags = make(map[uint16]int)
+	conn.Lock()
+	fids := make([]*SrvFid, 0, len(conn.fidpool))
+	for _, f := range conn.fidpool {
+		fids = append(fids, f)
+	}
+	for t, r := range conn.reqs {
+		n := 0
+		for rr := r; rr != nil; rr = rr.next {
+			n++
+		}
+		vi.Tags[t] = n
+	}
+	vi.Msize = conn.Msize
+	vi.Dotu = conn.Dotu
+	vi.Npend = conn.npend
+	conn.Unlock()
+	for _, f := range fids {
+		f.Lock()
+		vi.Fids[f.fid] = f.refcount
+		f.Unlock()
+	}
+	vi.Rchan = len(conn.rchan)
+	vi.Reqout = len(conn.reqout)
+	return vi
+}
+
+// VerifConns returns the connections currently registered with the server.
+func VerifConns(srv *Srv) []*Conn {
+	srv.Lock()
+	defer srv.Unlock()
+	var cs []*Conn
+	for c := range srv.conns {
+		cs = append(cs, c)
+	}
+	return cs
+}
+
+// VerifClnt reports the tag bookkeeping of a client.
+type VerifClntInfo struct {
+	FreeTags int      // ids waiting in the tag pool
+	Cached   int      // request slots cached (each keeps its tag)
+	Pending  []uint16 // tags of the requests on the pending list, in list order
+	Err      bool
+}
+
+func VerifClnt(clnt *Clnt) VerifClntInfo {
+	var vi VerifClntInfo
+	vi.FreeTags = len(clnt.tagpool.id)
+	vi.Cached = len(clnt.reqchan)
+	clnt.Lock()
+	for r := clnt.reqfirst; r != nil; r = r.next {
+		vi.Pending = append(vi.Pending, r.tag)
+	}
+	vi.Err = clnt.err != nil
+	clnt.Unlock()
+	return vi
+}
+
+// VerifLoggerQueue is the number of entries logged but not yet stored.
+func VerifLoggerQueue(l *Logger) int { return len(l.logchan) }
+
+// VerifReqId gives the harness a stable identity for a request in hook args.
+func (req *SrvReq) VerifTag() uint16 { return req.Tc.Tag }
